@@ -8,6 +8,7 @@ def install(prog):
     from . import httpstubs  # noqa
     from . import docstubs  # noqa
     from . import jwtstubs  # noqa
-    for m in (base, xmlstubs, cryptostubs, httpstubs, docstubs, jwtstubs):
+    from . import ropestubs  # noqa
+    for m in (base, xmlstubs, cryptostubs, httpstubs, docstubs, jwtstubs, ropestubs):
         if hasattr(m, 'install'):
             m.install(prog)
